@@ -719,3 +719,11 @@ def replay(ctx: Ctx, payload) -> Tuple[bool, str]:
     if kind == "peek_transparency":
         return peek_transparent(inp)
     return True, "unknown kind"
+
+
+# ------------------------------------------------------------------------------------------------
+from . import _compose, e2en_parts  # noqa: E402
+
+_compose.extend(globals(), [
+    _compose.theorem_part("e2en", e2en_parts.THEOREMS_BY_PROP.get("C13", []), e2en_parts.LEAN_MODULES),
+])
